@@ -6,6 +6,7 @@ trivial-success and failure-leaves-placement clauses evaluated on the implementa
 import json
 from tools import common
 from checks import legal_common as lc
+from checks import c01_sequences
 
 LEVEL = "proof"
 
@@ -45,16 +46,20 @@ def run(ctx):
     proof_ok, proof = common.proof_status(ctx, "C01")
     n = 4000 if ctx.quick else 400000
     s = ctx.seed
-    plan = [(0, n // 2, s), (8, n // 4, s + 1), (2, n // 8, s + 2), (4, n // 8, s + 3), (32, n // 8, s + 4)]
+    plan = [(0, n // 2, s), (8, n // 4, s + 1), (2, n // 8, s + 2), (4, n // 8, s + 3), (32, n // 8, s + 4), (64, n // 4, s + 5)]
     if not ctx.quick:
-        plan += [(0, n // 2, s + 1000), (0, n // 2, s + 2000)]
+        plan += [(0, n // 2, s + 1000), (0, n // 2, s + 2000), (64, n // 4, s + 1005)]
     run = lc.LegalRun(ctx, plan).execute()
     mism, ofail, nontriv = evaluate(ctx, run)
+    # sequence stream: ONE Circuit legalized, edited through the public setters (fixed obstructions moved, flags, rows ...) and legalized
+    # again / placeDetailed; the statement on every result + the same call on a freshly built circuit with the same public state
+    seqs = c01_sequences.run_stage_sequences(s + 91, 2500 if ctx.quick else 120000, common.corpus("C01", ("SP ",)))
+    seq_bad = c01_sequences.report(ctx, seqs)
     for l, i, why in ofail[:3]:
         ctx.violation("Circuit::legalize violates C01: " + why,
                       {"case": l, "format": "LG nrows (minX maxX minY maxY orient)* ncells (x y w h orient pol fixed obs)* custom ow10 oy10 oh10 effort twice",
                        "implementation_output": i, "why": why})
-    if not ofail:
+    if not ofail and not seq_bad:
         if mism:
             ctx.violation("correspondence Legalizer.v <-> legalizer/tetris/abacus .cpp broken (%d of %d cases differ); no circuit violating C01 found"
                           % (len(mism), len(run.lines)),
@@ -65,21 +70,34 @@ def run(ctx):
     # the CLOSED model (order computed by CellOrder.cell_order): exact tie with the real computeCellOrder (tag OR)
     from checks import c11_order
     ores = c11_order.run_order(ctx, 3000 if ctx.quick else 100000, ctx.seed + 57, corpus_prop="C01")
-    if not ofail:
+    if not ofail and not seq_bad:
         c11_order.report(ctx, ores)
     cov = dict(proof)
     dist = lc.distribution(run)
     cov.update({"closed_model_order_tie": c11_order.summary(ores),
                 "trusted_base": common.TRUSTED_BASE + ["computeCellOrder: the order-parametric theorems hold for every order (the model is run with the implementation's order); the closed-model theorems "
                                                         "(c01_legalize_real_*) use the rational model of the key, tied exactly where the binary32 evaluation is exact (tag OR)"],
-                "evaluations": len(run.lines), "distinct_nontrivial": len(nontriv),
+                "evaluations": len(run.lines) + seqs["in_domain_calls"], "distinct_nontrivial": len(nontriv),
+                "sequence_stream": c01_sequences.summary(seqs),
                 "rule": "seeded random circuits: 1-6 rows (split segments, y gaps, N/S/FN/FS patterns, shuffled), 1-12 cells (1-3 rows high, 8 orientations for "
                         "polarity-free cells, all polarities, fixed cells of any size with both obstruction flags), targets inside/near/far, utilisation 30-110%, "
-                        "efforts 1-9, ordering parameters over the accepted box; streams: general, trivially-feasible, no-turned, magnitude (scale 2^4..2^16). "
-                        "non-trivial = legalize returned and moved at least one cell; distinct = distinct case lines",
+                        "efforts 1-9, ordering parameters over the accepted box; streams: general, trivially-feasible, no-turned, magnitude (scale 2^4..2^16), "
+                        "exactly tiled rows, and SEAMS: 2-5 rows each given in 2-4 pieces that abut exactly (70 %) or with a gap of 1, the same cuts in "
+                        "every row (70 %) or cuts per row, 2-5 multi-row cells (2-3 rows high, 1-4 wide) whose targets are at / one left of / one "
+                        "right of a seam (left edge at the start of a piece) or at seam - width +-1 (right edge at the end of a piece), 80 % of them "
+                        "around one seam so that they stack, + 0-4 row-high cells, optional fixed obstruction. "
+                        "non-trivial = legalize returned and moved at least one cell; distinct = distinct case lines. "
+                        "sequence_stream (tag SP, harness/circseq.cpp): one Circuit of the same domain (up to 9 cells, 0-4 nets, scale up to 2^16, a fixed "
+                        "obstruction inside the rows in 60 %) and 3-9 steps: legalize(params) (first step in 70 %, always the last step), "
+                        "placeDetailed(params), setSolution / setCellX / setCellY (60 % on a FIXED cell when there is one), setCellIsFixed / "
+                        "setCellIsObstruction (set, clear, toggle), setRows (edit a row's x range/orientation, drop/add a row), setCellWidth/Height/"
+                        "Orientation, addNet, copy assignment, with computeRows/hpwl/report queries between the steps; every legalize/placeDetailed "
+                        "call is judged on the public state right before it (legalb on a normal return when that state is in the domain std_design, "
+                        "a failure leaves the placement, no failure when trivially feasible) and repeated on a circuit built from scratch with "
+                        "that state (same outcome, same placement)",
                 "distribution": dist,
                 "samples": [run.lines[0], run.lines[len(run.lines) // 2]],
-                "model_vs_impl_differences": len(mism), "impl_outputs_violating_statement": len(ofail)})
+                "model_vs_impl_differences": len(mism) + len(seqs["differ"]), "impl_outputs_violating_statement": len(ofail) + seq_bad})
     return ctx.finish(LEVEL, cov, ["model tied to the code by exact comparison on the cases of this run",
                                    "legality of the model's result for all inputs is carried by the checked model (legalize_checked) and validated per case; see Properties_C01.v for what is proved unconditionally"])
 
@@ -90,6 +108,8 @@ def replay(ctx, path):
     if case.startswith("OR "):
         from checks import c11_order
         return c11_order.replay_case(case)
+    if case.startswith("SP "):
+        return c01_sequences.replay_case(case)
     class R(lc.LegalRun):
         def __init__(self, ctx):
             self.ctx = ctx
